@@ -226,27 +226,58 @@ def r10d(ctx):
 def r10f(ctx):
     """Pre-loading must not overwrite what is already in memory (edited or deleted parts)."""
     repo = ctx.repo
-    ctx.rule("R10f", "bulk loaders of the part table never overwrite a part that is already in memory", floor=1)
+    ctx.rule("R10f", "bulk loaders of the part table never overwrite a part that is already in memory", floor=2)
     c = repo.cls("Container")
     INITIAL = {"_read_zip": "initial load into an empty part table (called from open())"}
     n_inst = 0
+
+    def is_table(e, aliases):
+        """`self.__parts` (mangled or not) or a local alias of it."""
+        if isinstance(e, ast.Attribute) and e.attr.endswith("__parts") and isinstance(e.value, ast.Name) and e.value.id == "self":
+            return True
+        return isinstance(e, ast.Name) and e.id in aliases
+
     for name, fs in c.methods.items():
         f = fs[0]
+        aliases: set[str] = set()
+        for _ in range(2):
+            for a in walk_no_nested(f.node):
+                if isinstance(a, ast.Assign) and len(a.targets) == 1 and isinstance(a.targets[0], ast.Name) and is_table(a.value, aliases):
+                    aliases.add(a.targets[0].id)
         for loop in [n for n in walk_no_nested(f.node) if isinstance(n, ast.For) and ("namelist" in ast.unparse(n.iter) or "_get_folder_parts" in ast.unparse(n.iter))]:
-            stores = [a for a in ast.walk(loop) if isinstance(a, ast.Assign) and isinstance(a.targets[0], ast.Subscript) and "__parts" in ast.unparse(a.targets[0].value)
-                      and "__parts_ts" not in ast.unparse(a.targets[0].value)]
-            for st in stores:
+            # every way of storing into the part table inside the loop
+            stores = []  # (statement, key expression, kind)
+            for a in ast.walk(loop):
+                if isinstance(a, ast.Assign) and isinstance(a.targets[0], ast.Subscript) and is_table(a.targets[0].value, aliases):
+                    stores.append((a, a.targets[0].slice, "store"))
+                elif isinstance(a, ast.Call) and isinstance(a.func, ast.Attribute) and is_table(a.func.value, aliases) and a.func.attr in ("update", "setdefault", "__setitem__"):
+                    stores.append((a, a.args[0] if a.args else a, a.func.attr))
+            for st, keyx, kind in stores:
                 n_inst += 1
-                key = ast.unparse(st.targets[0].slice)
+                key = ast.unparse(keyx)
                 gs = structural_guards(st, stop=loop)
-                guarded = any(pol and isinstance(t, ast.Compare) and isinstance(t.ops[0], ast.NotIn) and ast.unparse(t.left) == key and "__parts" in ast.unparse(t.comparators[0])
-                              for t, pol in gs)
+
+                def absent(t, pol):
+                    # `key not in table` taken, or `key in table` not taken
+                    if isinstance(t, ast.UnaryOp) and isinstance(t.op, ast.Not):
+                        return absent(t.operand, not pol)
+                    if isinstance(t, ast.BoolOp) and isinstance(t.op, ast.And) and pol:
+                        return any(absent(v, True) for v in t.values)
+                    if isinstance(t, ast.BoolOp) and isinstance(t.op, ast.Or) and not pol:
+                        return any(absent(v, False) for v in t.values)
+                    if not (isinstance(t, ast.Compare) and len(t.ops) == 1 and ast.unparse(t.left) == key and is_table(t.comparators[0], aliases)):
+                        return False
+                    return (isinstance(t.ops[0], ast.NotIn) and pol) or (isinstance(t.ops[0], ast.In) and not pol)
+
+                guarded = kind == "setdefault" or (kind in ("store", "__setitem__") and any(absent(t, pol) for t, pol in gs))
                 ok = guarded or name in INITIAL
-                ctx.instance("R10f", f"{f.file}:{f.ident}", f"{norm(st, 50)} {'guarded by `' + key + ' not in self.__parts`' if guarded else ('(' + INITIAL.get(name, 'UNGUARDED') + ')')}",
-                             ok=ok, nontrivial=True, line=st.lineno)
+                how = ("setdefault keeps an existing entry" if kind == "setdefault" else f"guarded by the absence of `{key}` from the part table") if guarded \
+                    else "(" + INITIAL.get(name, "UNGUARDED: the test in force does not establish that the key is absent (a deleted part is present, with value None)") + ")"
+                ctx.instance("R10f", f"{f.file}:{f.ident}", f"{norm(st, 50)} {how}", ok=ok, nontrivial=True, line=st.lineno)
                 if not ok:
-                    ctx.report("R10f", f, st, st, f"{c.name}.{name} re-reads every member from the file into the part table, overwriting parts that were "
-                               f"modified (set_part) or deleted (None) in memory: a clone of an edited container silently reverts to the file's content")
+                    ctx.report("R10f", f, st, st, f"{c.name}.{name} re-reads members from the file into the part table where an entry already exists: parts that were "
+                               f"modified (set_part) or deleted (entry None) in memory are replaced by the file's content — a clone of an edited container "
+                               f"reverts, and a deleted part whose manifest entry is gone comes back into the saved package")
     if n_inst == 0:
         raise AnalysisError("R10f: no bulk loader of the part table found")
 
@@ -347,6 +378,18 @@ SEEDS = [
     Seed("zip pre-load overwrites in-memory parts again", "fault", _CT,
          "                    upath = normalize_path(name)\n                    if upath not in self.__parts:\n                        self.__parts[upath] = zf.read(name)\n        except BadZipfile:\n            pass",
          "                    upath = normalize_path(name)\n                    self.__parts[upath] = zf.read(name)\n        except BadZipfile:\n            pass", "R10f"),
+    Seed("zip pre-load re-reads parts whose entry is None (deleted), through an alias", "fault", _CT,
+         "                    upath = normalize_path(name)\n                    if upath not in self.__parts:\n                        self.__parts[upath] = zf.read(name)\n        except BadZipfile:\n            pass",
+         "                    upath = normalize_path(name)\n                    parts = self.__parts\n                    if parts.get(upath) is None:\n                        parts[upath] = zf.read(name)\n        except BadZipfile:\n            pass", "R10f"),
+    Seed("zip pre-load via dict.update", "fault", _CT,
+         "                    upath = normalize_path(name)\n                    if upath not in self.__parts:\n                        self.__parts[upath] = zf.read(name)\n        except BadZipfile:\n            pass",
+         "                    upath = normalize_path(name)\n                    self.__parts.update({upath: zf.read(name)})\n        except BadZipfile:\n            pass", "R10f"),
+    Seed("zip pre-load through an alias, early continue", "neutral", _CT,
+         "                    upath = normalize_path(name)\n                    if upath not in self.__parts:\n                        self.__parts[upath] = zf.read(name)\n        except BadZipfile:\n            pass",
+         "                    upath = normalize_path(name)\n                    parts = self.__parts\n                    if upath in parts:\n                        continue\n                    parts[upath] = zf.read(name)\n        except BadZipfile:\n            pass"),
+    Seed("zip pre-load with setdefault", "neutral", _CT,
+         "                    upath = normalize_path(name)\n                    if upath not in self.__parts:\n                        self.__parts[upath] = zf.read(name)\n        except BadZipfile:\n            pass",
+         "                    upath = normalize_path(name)\n                    self.__parts.setdefault(upath, zf.read(name))\n        except BadZipfile:\n            pass"),
     Seed("Document.clone drops the edits again", "fault", _DOC,
          "                for path, part in self.__xmlparts.items():\n                    if part is not None:\n                        container.set_part(path, part.serialize())\n                setattr(clone, name, container)",
          "                setattr(clone, name, container)", "R10e"),
